@@ -805,8 +805,9 @@ func (r *Run) execOp(a *attempt, ctx boltz.MutateContext, i int, op Op) error {
 	case "preCommit":
 		ctx.AddPreCommitAction(func(boltz.MutateContext) error {
 			if op.Fail {
+				// the context keeps the actions of earlier attempts (Batch re-execution): charge the current one
 				r.mu.Lock()
-				a.mustFail = "F4"
+				a.tr.attempts[len(a.tr.attempts)-1].mustFail = "F4"
 				r.mu.Unlock()
 				r.bump(&r.res.FaultsHit, "F4")
 				return errInjected
